@@ -230,9 +230,9 @@ func scenC15(x *Exec) {
 		}
 		waitOnline()
 		type sent struct {
-			name             string
-			id               int
-			before, after    []string // membership when the hand-off started / ended
+			name          string
+			id            int
+			before, after []string // membership when the hand-off started / ended
 		}
 		var sents []*sent
 		var memberMu = &members
